@@ -347,3 +347,69 @@ Definition esc_case_ok (c : bytes * bytes * bytes) : bool :=
 Definition unesc_case_ok (c : bytes * res bytes * res bytes) : bool :=
   let '(s, pu, qu) := c in
   res_match bytes_eqb (path_unescape s) pu && res_match bytes_eqb (query_unescape s) qu.
+
+(* ---------------------------------------------------------------- *)
+(* the sync client's request: ipnisync.NewSyncer does ToURL(addr).JoinPath("/ipni/v1/ad")
+   and Syncer.fetch does rootURL.JoinPath(resource).  url.URL.JoinPath joins the ESCAPED
+   path with the elements by path.Join, i.e. path.Clean: empty segments (repeated and
+   trailing slashes) and "." segments are dropped, ".." removes the segment before it.
+   '/' and '.' are never escaped and no escape produces them, so cleaning the escaped text
+   is cleaning the decoded path; the model works on the decoded bytes (r.URL.Path as the
+   server sees it).  Families: sync. *)
+
+Definition cDOT := 46.
+
+(* strings.Split(p, "/") *)
+Fixpoint split_go (cur : bytes) (b : bytes) : list bytes :=
+  match b with
+  | [] => [rev cur]
+  | c :: r => if c =? cSLASH then rev cur :: split_go [] r else split_go (c :: cur) r
+  end.
+Definition split_slash (b : bytes) : list bytes := split_go [] b.
+
+Definition is_dot (s : bytes) : bool := match s with [c] => c =? cDOT | _ => false end.
+Definition is_dotdot (s : bytes) : bool := match s with [c; d] => (c =? cDOT) && (d =? cDOT) | _ => false end.
+
+(* path.Clean of a rooted path, on its segments: stack holds the kept segments, last first *)
+Fixpoint clean_go (stack : list bytes) (segs : list bytes) : list bytes :=
+  match segs with
+  | [] => rev stack
+  | s :: r =>
+      if is_nil s || is_dot s then clean_go stack r
+      else if is_dotdot s then clean_go (tl stack) r
+      else clean_go (s :: stack) r
+  end.
+
+Definition join_slash (segs : list bytes) : bytes := flat_map (fun s => cSLASH :: s) segs.
+
+(* path.Clean("/" + p): always rooted here (a URL with a host) *)
+Definition clean_path (p : bytes) : bytes :=
+  match clean_go [] (split_slash p) with
+  | [] => [cSLASH]
+  | segs => join_slash segs
+  end.
+
+Definition ipni_path : bytes := [47;105;112;110;105;47;118;49;47;97;100].     (* /ipni/v1/ad *)
+
+(* the path of the request for [rsrc] ("head" or a CID string) given the base path ToURL returned *)
+Definition request_path (base rsrc : bytes) : bytes :=
+  clean_path (base ++ ipni_path ++ cSLASH :: rsrc).
+
+(* what the server of a publisher advertised by URL u sees: (Host header, r.URL.Path) *)
+Definition sync_request (u : url) (rsrc : bytes) : res (bytes * bytes) :=
+  m <- from_url u ;;
+  o <- to_url m ;;
+  Ok (o_host o, request_path (o_path o) rsrc).
+
+(* a path the client reproduces exactly: empty, or "/seg/seg/.." with every segment
+   non-empty, without '/', and neither "." nor ".." (no repeated or trailing slash) *)
+Definition normal_seg (s : bytes) : bool :=
+  negb (is_nil s) && negb (is_dot s) && negb (is_dotdot s) && negb (memb cSLASH s).
+
+(* family sync: (u, resource, observed Host header, observed r.URL.Path of the request) *)
+Definition sync_case_ok (c : url * bytes * bytes * bytes) : bool :=
+  let '(u, rsrc, obs_host, obs_path) := c in
+  match sync_request u rsrc with
+  | Ok (h, p) => bytes_eqb h obs_host && bytes_eqb p obs_path
+  | _ => false
+  end.
